@@ -10,7 +10,13 @@ from vlib.modelcheck import ModelCheck
 PROP = "C13"
 NAMES = ["n1", "n2", "n3"]
 
+HELPER = """
+def claim(name, kill_me=False):
+    task.unique(name, kill_me=kill_me)
+"""
+
 SCRIPT = """
+from helper import claim
 tasks = {}
 
 @service
@@ -23,6 +29,8 @@ def run_{c}(pid=None, steps=None):
         vrec('step', pid, i)
         if st[0] == 'unique':
             task.unique(st[1], kill_me=st[2])
+        elif st[0] == 'unique_m':
+            claim(st[1], st[2])
         elif st[0] == 'sleep':
             task.sleep(st[1])
         elif st[0] == 'raise':
@@ -54,7 +62,9 @@ def gen(R):
         for _ in range(R.int(1, 4)):
             kind = R.weighted([(5, "unique"), (4, "sleep"), (1, "raise"), (2, "cancel"), (2, "cancel_kill_me")])
             if kind == "unique":
-                steps.append(["unique", R.choice(NAMES), R.bool(1, 3)])
+                # one in five claims goes through a function of a shared module: task.unique then works on the names
+                # of the module's global context, which every script that calls the helper shares
+                steps.append(["unique_m" if R.bool(1, 5) else "unique", R.choice(NAMES), R.bool(1, 3)])
             elif kind == "sleep":
                 steps.append(["sleep", R.choice([1.0, 2.0, 5.0])])
             elif kind == "cancel":
@@ -124,8 +134,8 @@ def exact_model(case):
             s = steps[st["i"]]
             if not s[0] == "sleep" or not st.get("sleeping"):
                 st["log"].append(f"step{st['i']}")
-            if s[0] == "unique":
-                key = (ctx, s[1])
+            if s[0] in ("unique", "unique_m"):
+                key = (ctx if s[0] == "unique" else "M", s[1])
                 cur = owner.get(key)
                 if s[2]:
                     if cur is not None and cur != p:
@@ -176,7 +186,7 @@ async def execute(case):
     from custom_components.pyscript.global_ctx import GlobalContextMgr
 
     km = ", kill_me=True" if case["deco_kill_me"] else ""
-    files = {"a.py": SCRIPT.replace("{c}", "a").replace("{km}", km), "b.py": SCRIPT.replace("{c}", "b").replace("{km}", km)}
+    files = {"a.py": SCRIPT.replace("{c}", "a").replace("{km}", km), "b.py": SCRIPT.replace("{c}", "b").replace("{km}", km), "modules/helper.py": HELPER}
     async with l3.Integ(files, legacy=case["legacy"]) as it:
         task_of = {}
         Function.functions["vreg"] = lambda pid: task_of.__setitem__(pid, asyncio.current_task())
@@ -255,6 +265,11 @@ async def execute(case):
     return {"logs": logs, "times": times, "snapshots": snapshots, "n2i": n2i, "foreign_cancelled": foreign_cancelled, "leftovers": leftovers, "cancelled": cancelled, "errors": errs}
 
 
+def regkey(ctx, name):
+    """Registry key of a name: the claiming function's global context is file.<ctx>, or the shared helper module's."""
+    return f"modules.helper.{name}" if ctx == "M" else f"file.{ctx}.{name}"
+
+
 def invariants(case, r):
     problems = []
     claimed = {}  # (ctx, name) -> set of pids that completed a unique step on it
@@ -269,13 +284,14 @@ def invariants(case, r):
                 claim_time[(t["pid"], t["ctx"], "dec_name")] = tm.get("begin", 0)
             continue
         for i, s in enumerate(t["steps"]):
-            if s[0] == "unique" and f"done{i}" in log:
-                claimed.setdefault((t["ctx"], s[1]), set()).add(t["pid"])
-                claim_time.setdefault((t["pid"], t["ctx"], s[1]), tm.get(f"done{i}", 0))
+            if s[0] in ("unique", "unique_m") and f"done{i}" in log:
+                c_ = t["ctx"] if s[0] == "unique" else "M"
+                claimed.setdefault((c_, s[1]), set()).add(t["pid"])
+                claim_time.setdefault((t["pid"], c_, s[1]), tm.get(f"done{i}", 0))
     for snap in r["snapshots"]:
         for (ctx, name), pids in claimed.items():
             alive = [p for p in pids if snap["alive"].get(p)]
-            key = f"file.{ctx}.{name}"
+            key = regkey(ctx, name)
             own = snap["owners"].get(key)
             # tasks that claimed the name and are still alive at this instant: at most one... among those whose claim
             # already happened by now; claims are only known from the final log, so compare against the registry:
@@ -284,7 +300,7 @@ def invariants(case, r):
         # a name's owner must be a live task of the same context
         for key, own in snap["owners"].items():
             parts = key.split(".")
-            if own in ctx_of and f"file.{ctx_of[own]}" != ".".join(parts[:2]):
+            if own in ctx_of and parts[0] != "modules" and f"file.{ctx_of[own]}" != ".".join(parts[:2]):
                 problems.append("cross-context-owner")
     final = r["snapshots"][-1]
     if any(v for v in final["alive"].values()):
@@ -298,7 +314,7 @@ def invariants(case, r):
     # at most one live claimant per name at every snapshot: a claimant is live if it is alive and has not been displaced
     for snap in r["snapshots"]:
         for (ctx, name), pids in claimed.items():
-            key = f"file.{ctx}.{name}"
+            key = regkey(ctx, name)
             own = snap["owners"].get(key)
             live_claimants = [p for p in pids if snap["alive"].get(p) and claim_time.get((p, ctx, name), 1e9) <= snap["t"]]
             if own is None and live_claimants and snap["label"] == "final":
@@ -322,7 +338,7 @@ class C13(ModelCheck):
         "every assignment of start instants from {same instant, 1 s later}; random: schedules of 3-5 tasks (service calls) each running a program of {task.unique(name, kill_me), task.sleep(d), "
         "raise, finish} over 3 names and 2 global contexts, started at generated instants (distinct per-task offsets, or "
         "identical instants for same-instant contention), optionally a @task_unique-decorated service and a "
-        "task.unique call issued from a task not started by pyscript; on the virtual clock, both subsystems. Oracle: "
+        "task.unique call issued from a task not started by pyscript; one in five claims is made through a function of a shared module (it then works on the module context's names, shared by every script that calls it); on the virtual clock, both subsystems. Oracle: "
         "invariants at every sampled quiescent instant (registry never lists an ended task, owners never cross "
         "contexts, at most one live claimant per name, names released when the owner ends for any reason, task.name2id "
         "agrees with the registry, the foreign task is never cancelled, a cancelled task never reaches its end marker) "
@@ -375,8 +391,8 @@ class C13(ModelCheck):
         names = {}
         for t in case["tasks"]:
             for s in t["steps"]:
-                if s[0] == "unique":
-                    names.setdefault((t["ctx"], s[1]), set()).add(t["pid"])
+                if s[0] in ("unique", "unique_m"):
+                    names.setdefault((t["ctx"] if s[0] == "unique" else "M", s[1]), set()).add(t["pid"])
         nt = any(len(v) >= 2 for v in names.values())
         # the only error a schedule may log is the ValueError('boom') of a raise step
         if any("boom" not in e for e in r["errors"]):
